@@ -11,7 +11,7 @@ every leaf of the decision tree of the symbolic executor, the driver checks
   * frame: attribute stores only to the fields the contract's `frame` names.
 
 Obligations are discharged by the in-process z3 first; what it leaves open goes to the SMT-LIB portfolio."""
-import ast, time, z3
+import ast, os, time, z3
 from .values import *
 from .symex import (Engine, Path, Frame, PathEnd, ReturnExc, RaiseExc, Limitation, simplify_bool, LIB_EXC, SpecFunc)
 from .common import CheckerError
@@ -60,6 +60,10 @@ def _sk_counter():
     return _skc[0]
 
 
+PORTFOLIO_CAP = 3
+_portfolio = {"n": 0}
+
+
 def discharge(pc, goal, timeout_ms=10000):
     """valid(pc => goal)?  returns (status, backend, seconds, model|None)"""
     t0 = time.time()
@@ -70,6 +74,8 @@ def discharge(pc, goal, timeout_ms=10000):
         tot, worst, bks = 0.0, None, []
         for ch in goal.children():
             st, bk, dt, model = discharge(pc, ch, timeout_ms)
+            if os.environ.get("PVC_DEBUG_SLOW") and dt > 2:
+                print(f"[slow conjunct {dt:.1f}s {st}] {str(ch)[:300]}", flush=True)
             tot += dt
             bks.append(bk)
             if st != "discharged":
@@ -95,6 +101,8 @@ def discharge(pc, goal, timeout_ms=10000):
                         return st, bk, tot, model
                 return "discharged", "+".join(sorted(set(bks))), tot, None
     s = z3.Solver()
+    if _portfolio["n"] > PORTFOLIO_CAP:
+        timeout_ms = min(timeout_ms, 3000)       # the function is evidently not verifying: short budget for the rest
     s.set("timeout", timeout_ms)
     for c in pc:
         s.add(c)
@@ -105,9 +113,14 @@ def discharge(pc, goal, timeout_ms=10000):
         return "discharged", "z3-5.1(api)", dt, None
     if r == z3.sat:
         return "failed", "z3-5.1(api)", dt, s.model()
-    # portfolio on the SMT-LIB text (budgets sized so that a busy machine does not flip a verdict)
+    # portfolio on the SMT-LIB text (budgets sized so that a busy machine does not flip a verdict).  A function whose
+    # obligations keep coming back undecided (typically: they no longer hold and no solver can refute a quantified
+    # formula) is not given the long budget again and again: after PORTFOLIO_CAP escalations the rest stay `unknown`.
+    _portfolio["n"] += 1
+    if _portfolio["n"] > PORTFOLIO_CAP:
+        return "unknown", "z3-5.1(api): timeout; portfolio budget of this function used up", dt, None
     q = "(set-option :produce-models true)\n" + s.to_smt2()
-    st, out, bk, dt2 = smt.run(q, "vc", timeout=60, order=["z3-4.8", "z3-5.1", "cvc5-1.0"])
+    st, out, bk, dt2 = smt.run_parallel(q, "vc", timeout=40, order=["z3-4.8", "z3-5.1", "cvc5-1.0"])
     if st == "unsat":
         return "discharged", bk, dt + dt2, None
     if st == "sat":
@@ -118,6 +131,7 @@ def discharge(pc, goal, timeout_ms=10000):
 def verify_function(eng, qualname, contract, make_args, max_paths=4000, fork_slice=None):
     """make_args(eng, path, fork) -> env for one fork; forks = contract['forks'] (list of dicts)"""
     fi = eng.index.func(qualname)
+    _portfolio["n"] = 0
     max_paths = contract.get("max_paths", max_paths)
     res = Result(qualname)
     res.source_hash = fi.source_hash
